@@ -166,6 +166,10 @@ func (g *typeGen) structType(depth int) reflect.Type {
 	if depth > 1 && nf > 3 {
 		nf = 3
 	}
+	if depth == 0 && g.rng.Intn(60) == 0 {
+		nf = 65 + g.rng.Intn(30) // more fields than a machine word has bits
+		g.tag("wide-record")
+	}
 	fields := make([]reflect.StructField, 0, nf)
 	for i := 0; i < nf; i++ {
 		ft := g.fieldType(depth)
